@@ -98,8 +98,20 @@ static int parseConvertElement(MPT_INTERFACE(convertable) *conv, MPT_TYPE(type) 
 		len = (key + klen) - it->val;
 	}
 	/* convert to target type */
-	else if ((len = mpt_convert_string(it->val, type, dest)) < 0) {
+	else if ((len = mpt_convert_string(it->val, type, 0)) < 0) {
 		return len;
+	}
+	else {
+		const char *sep = (char *) (it + 1);
+		int curr = (unsigned char) it->val[len];
+		/* number must end at element separator, not inside a word */
+		if (type != 'c'
+		 && curr && !isspace(curr) && !strchr(*sep ? sep : " ,;/:", curr)) {
+			return MPT_ERROR(BadValue);
+		}
+		if (dest && (len = mpt_convert_string(it->val, type, dest)) < 0) {
+			return len;
+		}
 	}
 	/* terminate consumed substring */
 	it->restore = it->val + len;
